@@ -419,6 +419,33 @@ def links_up_prefix(root: str) -> bool:
     raise Unsupported('type link of an unrecognised shape: %s' % hrefs[0])
 
 
+def id_scheme(html_mod: ast.Module, root: str) -> typing.Tuple[bool, str]:
+    """(composite tag ids are '-'-separated, separator the template puts between a tag id and the nesting counter).
+    Two shapes each are recognised (pinned tree / design_notes/C20_tag_id_fix.patch); anything else fails closed."""
+    fn = pyfun_tr.find_function(html_mod, None, 'filter_tag_id')
+    src = ast.unparse(fn)
+    if "'{}_{}_{}'.format(instance.full_name.replace('.', '_')" in src:
+        dashed = False
+    elif "'{}-{}-{}'.format(instance.full_name.replace('.', '-')" in src:
+        dashed = True
+    else:
+        raise Unsupported('filter_tag_id: unrecognised id format for composite types')
+    with open(os.path.join(root, 'type_info.j2'), encoding='utf-8') as f:
+        ti = f.read()
+    sets = re.findall(r'\{%-?\s*set\s+type_tag_id\s*=\s*(.*?)\s*-?%\}', ti)
+    if len(sets) != 2 or re.sub(r'\s+', '', sets[0]) != 't|tag_id':
+        raise Unsupported('type_info.j2: type_tag_id is not set exactly twice (tag_id, then make_unique)')
+    second = re.sub(r'\s+', '', sets[1])
+    if second == 'type_tag_id|make_unique':
+        sep = ''
+    else:
+        mm = re.fullmatch(r'''\(type_tag_id~(["'])([-A-Za-z_]*)\1\)\|make_unique''', second)
+        if not mm:
+            raise Unsupported('type_info.j2: unrecognised nested id expression %s' % sets[1])
+        sep = mm.group(2)
+    return dashed, sep
+
+
 def gen_html() -> typing.Tuple[bool, str]:
     out_path = os.path.join(gen.GEN_DIR, 'Gen_Html.v')
     head = (gen.HEADER % 'src/nunavut/lang/html/__init__.py, jinja/markupsafe/_native.py, jinja/environment.py, jinja/jinja2/utils.py, '
@@ -438,6 +465,10 @@ def gen_html() -> typing.Tuple[bool, str]:
         parts.append(autoescape_data(envt, utl))
         parts.append('Definition links_up_prefix : bool := %s.  (* type_info.j2 prefixes type links with the page depth *)'
                      % ('true' if links_up_prefix(os.path.join(gen.REPO, 'src/nunavut/lang/html/templates')) else 'false'))
+        dashed, sep = id_scheme(html_mod, os.path.join(gen.REPO, 'src/nunavut/lang/html/templates'))
+        parts.append('Definition tag_id_dashed : bool := %s.  (* composite tag ids are name-components and version joined by - *)'
+                     % ('true' if dashed else 'false'))
+        parts.append('Definition nested_id_sep : str := %s.  (* type_info.j2: between the tag id and the nesting counter *)' % _s(sep))
         names, _old_sinks = template_data(os.path.join(gen.REPO, 'src/nunavut/lang/html/templates'))
         precise = doc_sink_flags(os.path.join(gen.REPO, 'src/nunavut/lang/html/templates'))
         parts.append('Definition html_template_names : list str := [\n  %s].' % ';\n  '.join('%s (* %s *)' % (_s(n), n) for n in names))
@@ -760,6 +791,7 @@ class TemplateScan:
         self.sets: typing.Dict[str, list] = {}
         self.outs: typing.List[dict] = []
         self.includes: typing.List[tuple] = []
+        self.loopvars: typing.Dict[str, list] = {}
         self.cur_macro: typing.Optional[str] = None
 
     def guards(self) -> typing.List[typing.Tuple[int, str]]:
@@ -961,6 +993,18 @@ class TemplateScan:
         elif kw == 'for':
             if ' recursive' in rest:
                 raise Unsupported('%s:%d: recursive loop' % (self.rel, line))
+            mm = re.match(r'(.+?)\s+in\s+(.*)$', rest, re.S)
+            if not mm:
+                raise Unsupported('%s:%d: for header %r' % (self.rel, line, rest))
+            targets = [x.strip() for x in mm.group(1).split(',')]
+            if not all(re.fullmatch(r'[A-Za-z_]\w*', x) for x in targets):
+                raise Unsupported('%s:%d: loop target %r is not a (tuple of) plain name(s)' % (self.rel, line, mm.group(1)))
+            if ' if ' in mm.group(2):
+                raise Unsupported('%s:%d: filtered loop' % (self.rel, line))
+            jparse(mm.group(2))    # the iterable must be within the expression grammar
+            for x in targets + ['loop']:
+                # a loop target is a BINDING of unknown value (elements of an arbitrary iterable); it shadows sets / parameters
+                self.loopvars.setdefault(x, []).append(self.cur_macro)
             self.frames.append({'kind': 'for', 'nodes': [], 'text': rest})
         elif kw == 'endfor':
             fr = self.frames.pop()
@@ -1064,6 +1108,8 @@ class Classifier:
             for m2, rhs in sc.sets.get(name, []):
                 if m2 == macro:
                     parts.append(self.cls(sc, macro, rhs))
+            if macro in sc.loopvars.get(name, []):
+                parts.append('unknown')
             if not parts:
                 return 'ident' if name == 'T' else 'unknown'
             return self.join(*parts)
@@ -1221,6 +1267,10 @@ def bindings_and_certificate(rels, scans, cl: Classifier):
         for name, lst in sc.sets.items():
             for macro, rhs in lst:
                 binds.append((_scope(rel, macro), name, _scope(rel, macro), rhs))
+                cert[(_scope(rel, macro), name)] = cl.name_cls(sc, macro, name)
+        for name, macros in sc.loopvars.items():
+            for macro in set(macros):
+                binds.append((_scope(rel, macro), name, _scope(rel, macro), ('other',)))
                 cert[(_scope(rel, macro), name)] = cl.name_cls(sc, macro, name)
         for mname, fr in sc.macros.items():
             key = '%s:%s' % (rel, mname)
